@@ -384,7 +384,10 @@ func (o *Once) Do(f func()) {
 	}
 }
 
-// spin: the lock is held by a parked task - force a hand-over.
+// spin: the lock is held by a parked task - force a hand-over. The baton goes
+// round-robin to the next live task after the caller, so the holder is reached
+// within nTasks hops (a decision-driven choice can cycle among the waiters and
+// never reach the holder: seen as a livelock with a correctly locked cache).
 //
 //go:norace
 func spin() {
@@ -392,7 +395,14 @@ func spin() {
 		panic("verifrt: lock held while no other task can run (deadlock in the simulated program)")
 	}
 	me := cur
-	to := pickOther(me, uint16(Decisions%7)+1)
+	to := -1
+	for k := 1; k <= nTasks; k++ {
+		c := (me + k) % nTasks
+		if c != me && alive[c] {
+			to = c
+			break
+		}
+	}
 	Decisions++
 	if to < 0 {
 		panic("verifrt: deadlock - lock is held and no other task is alive")
